@@ -27,16 +27,19 @@ emit(const std::string &s)
   }
 }
 
+// every oracle hit is written out the moment it is recorded, so that it survives a later crash of the case
+void
+emit_one(const vsched::Report &r)
+{
+  std::string m = r.msg;
+  for (auto &ch : m) {
+    if (ch == '\n') ch = ' ';
+  }
+  emit("REPORT " + r.kind + ": " + m + " (T" + std::to_string(r.thread) + " step " + std::to_string(r.step) + ")\n");
+}
 void
 emit_reports()
 {
-  for (auto &r : vsched::reports()) {
-    std::string m = r.msg;
-    for (auto &ch : m) {
-      if (ch == '\n') ch = ' ';
-    }
-    emit("REPORT " + r.kind + ": " + m + " (T" + std::to_string(r.thread) + " step " + std::to_string(r.step) + ")\n");
-  }
 }
 
 [[noreturn]] void
@@ -141,6 +144,7 @@ main(int argc, char **argv)
     }
   }
   vsched::set_fatal_handler(on_fatal);
+  vsched::on_report(emit_one);
   const int cap = threadinterp::capacity();
   if (mode == "replay") {
     Case c;
